@@ -26,6 +26,8 @@ encode, escape with replace(), split into lines and format the values they rende
 normalisation or slicing on the way.
 line-split-injective: free text written back one line per piece is cut at "\n" only (str.splitlines() cuts at eight more
 separators and makes texts that differ only in the separator collide) — two known findings on today's tree.
+Fourth round: delta-paired-with-its-basis — in InterDifferingSerializer._get_delta_for_revision (cross-format fetch) no variable bound per
+candidate basis (loop target or assigned only inside the loop) is read after the loop: basis and delta are returned from one record.
 Does not decide: injectivity of the escaping itself (replace() tables).
 """
 REV_FIELDS = ["revision_id", "committer", "timestamp", "timezone", "parent_ids", "message", "revprops"]
@@ -223,8 +225,22 @@ def run(ctx):
                 n_split += 1
                 ctx.check("line-split-injective", f"{TF}:{q}[{norm(c.func.value) if norm(c.func.value).startswith('self.') else '<local>'}.splitlines]", False, "free text is cut at newline characters only", construct=f"L{c.lineno}:{norm(c)}", message=f"{q} cuts {norm(c.func.value)} with str.splitlines(), which also cuts at \\r, \\x0b, \\x0c, \\x1c-\\x1e, \\x85, \\u2028, \\u2029 and then writes every piece back with '\\n': two revisions whose text differs only in the kind of line separator (e.g. 'a\\nb' and 'a\\x0cb') have the same testament, so a signature over one also verifies the other")
     ctx.extra["splitlines_sites"] = n_split
+    # ---- fourth round: the basis returned with the chosen delta is the one the delta was computed against ---------------
+    VR = "breezy/bzr/vf_repository.py"
+    fgd = repo.func(VR, "InterDifferingSerializer._get_delta_for_revision")
+    loops_ = [s_ for s_ in fgd.body if isinstance(s_, ast.For)]
+    ctx.require(len(loops_) == 1, f"{VR}:InterDifferingSerializer._get_delta_for_revision: expected one candidate loop, found {len(loops_)}")
+    lp = loops_[0]
+    targets_ = {n_.id for n_ in ast.walk(lp.target) if isinstance(n_, ast.Name)}
+    pre = {t.id for s_ in fgd.body[: fgd.body.index(lp)] for a in ast.walk(s_) if isinstance(a, ast.Assign) for t in a.targets if isinstance(t, ast.Name)}
+    percand = targets_ | ({t.id for a in ast.walk(lp) if isinstance(a, ast.Assign) for t in a.targets if isinstance(t, ast.Name)} - pre)
+    after = fgd.body[fgd.body.index(lp) + 1 :]
+    stale = sorted({n_.id for s_ in after for n_ in ast.walk(s_) if isinstance(n_, ast.Name) and isinstance(n_.ctx, ast.Load) and n_.id in percand})
+    ctx.check("delta-paired-with-its-basis", f"{VR}:InterDifferingSerializer._get_delta_for_revision", not stale, "after the candidate loop nothing reads a per-candidate variable (basis id, tree, delta): the result is taken from the collected (size, basis, delta) records", construct=str(stale), message=f"_get_delta_for_revision reads the per-candidate variable(s) {stale} after the loop over the possible bases: they hold the LAST candidate, not the one the chosen delta was computed against — the shortest delta is applied to a different basis inventory, a converted merge revision gets a different inventory in the target format and its testament differs between formats")
+
 
 MUTANTS = [
+    Mutant("cross-format fetch returns the last basis with the shortest delta", "breezy/bzr/vf_repository.py", "        deltas.sort()\n        return deltas[0][1:]\n", "        deltas.sort()\n        return basis_id, deltas[0][2]\n", expect="delta-paired-with-its-basis"),
     Mutant("message lines lose trailing whitespace", TF, '        for l in self.message.splitlines():\n            a(f"  {l}\\n")\n', '        for l in self.message.splitlines():\n            a(f"  {l.rstrip()}\\n")\n', expect="attested-text-unaltered"),
     Mutant("paths normalised before escaping", TF, '        return path.replace("\\\\", "/").replace(" ", "\\\\ ")\n\n    def _entry_to_line', '        import posixpath\n\n        return posixpath.normpath(path.replace("\\\\", "/")).replace(" ", "\\\\ ")\n\n    def _entry_to_line', expect="attested-text-unaltered"),
     Mutant("commit timestamp keeps full resolution", "breezy/repository.py", "        self._timestamp = round(timestamp, 3)\n", "        self._timestamp = timestamp\n", expect="timestamp-resolution"),
